@@ -15,7 +15,7 @@ for f in files:
         hooks=[]
         i=0
         while i<len(ours):
-            if "#[cfg(kanal_verif)]" in ours[i] and i+1<len(ours) and "unbounded_wait" in ours[i+1]:
+            if "#[cfg(kanal_verif)]" in ours[i] and i+1<len(ours) and "crate::verif::rt::" in ours[i+1] and ours[i] not in theirs:
                 hooks+= [ours[i],ours[i+1]]; i+=2
             else: i+=1
         return "".join(hooks)+theirs
